@@ -238,6 +238,12 @@ fn shorthand() -> impl Strategy<Value = Vec<Op>> {
         (point(), point(), point()).prop_map(|(start, c1, p)| vec![Op::MoveTo { p: start }, Op::CurveTo { c1, c2: p, p }]),
         (point(), point()).prop_map(|(start, p)| vec![Op::LineTo { p: start }, Op::CurveTo { c1: start, c2: p, p }]),
         (point(), point(), point(), point()).prop_map(|(a, b, c, d)| vec![Op::MoveTo { p: a }, Op::CurveTo { c1: b, c2: c, p: d }, Op::CurveTo { c1: d, c2: a, p: b }]),
+        // curves that start where a closed subpath began / at a rectangle's origin (the current point after h, s, b, re)
+        (point(), point(), point(), point()).prop_map(|(a, b, c2, p)| vec![Op::MoveTo { p: a }, Op::LineTo { p: b }, Op::Close, Op::CurveTo { c1: a, c2, p }]),
+        (point(), point(), point(), point()).prop_map(|(a, b, c2, p)| vec![Op::MoveTo { p: a }, Op::LineTo { p: b }, Op::Close, Op::CurveTo { c1: b, c2, p }]),
+        (point(), point(), point(), point()).prop_map(|(a, b, c2, p)| vec![Op::MoveTo { p: a }, Op::LineTo { p: b }, Op::Close, Op::Stroke, Op::CurveTo { c1: a, c2, p }]),
+        (small(), small(), small(), small(), point(), point()).prop_map(|(x, y, width, height, c2, p)| vec![Op::Rect { rect: ViewRect { x, y, width, height } }, Op::CurveTo { c1: Point { x, y }, c2, p }]),
+        (point(), small(), small(), small(), small(), point(), point()).prop_map(|(a, x, y, width, height, c2, p)| vec![Op::MoveTo { p: a }, Op::Rect { rect: ViewRect { x, y, width, height } }, Op::CurveTo { c1: a, c2, p }]),
         // a curve starting at (0,0) with no current point yet
         (point(), point()).prop_map(|(c2, p)| vec![Op::CurveTo { c1: Point { x: 0.0, y: 0.0 }, c2, p }]),
     ]
@@ -389,14 +395,20 @@ fn neg(v: &Val) -> Val {
 }
 
 /// Expected expansion per ISO 32000-1 Table A.1 (Appendix B of DESIGN.md).  `cur` = current point.
-fn expand(op: &str, a: &[Val], cur: &mut Option<(Val, Val)>, compat: &mut bool) -> Vec<OpDesc> {
+fn expand(op: &str, a: &[Val], cur: &mut Option<(Val, Val)>, start: &mut Option<(Val, Val)>, compat: &mut bool) -> Vec<OpDesc> {
     let nz = Val::name("NonZero");
     let eo = Val::name("EvenOdd");
     let n = |i: usize| fnum(&a[i]);
     match op {
-        "b" => vec![od("Close", vec![]), od("FillAndStroke", vec![nz])],
+        "b" => {
+            *cur = start.clone();
+            vec![od("Close", vec![]), od("FillAndStroke", vec![nz])]
+        }
         "B" => vec![od("FillAndStroke", vec![nz])],
-        "b*" => vec![od("Close", vec![]), od("FillAndStroke", vec![eo])],
+        "b*" => {
+            *cur = start.clone();
+            vec![od("Close", vec![]), od("FillAndStroke", vec![eo])]
+        }
         "B*" => vec![od("FillAndStroke", vec![eo])],
         "BDC" => vec![od("BeginMarkedContent", vec![a[0].clone(), a[1].clone()])],
         "BMC" => vec![od("BeginMarkedContent", vec![a[0].clone(), Val::Null])],
@@ -432,6 +444,7 @@ fn expand(op: &str, a: &[Val], cur: &mut Option<(Val, Val)>, compat: &mut bool) 
             vec![od("LineTo", vec![n(0), n(1)])]
         }
         "m" => {
+            *start = Some((n(0), n(1)));
             *cur = Some((n(0), n(1)));
             vec![od("MoveTo", vec![n(0), n(1)])]
         }
@@ -452,7 +465,12 @@ fn expand(op: &str, a: &[Val], cur: &mut Option<(Val, Val)>, compat: &mut bool) 
         "SC" | "SCN" => vec![od("StrokeColor", std::iter::once(Val::name("Other")).chain(a.iter().cloned()).collect())],
         "sc" | "scn" => vec![od("FillColor", std::iter::once(Val::name("Other")).chain(a.iter().cloned()).collect())],
         "gs" => vec![od("GraphicsState", vec![a[0].clone()])],
-        "h" => vec![od("Close", vec![])],
+        // ISO 32000-1 8.5.2.1: h closes the subpath (the current point returns to its starting point, as PostScript's
+        // closepath); x y w h re is defined as x y m ... h.  Without a known starting point the current point is unknown.
+        "h" => {
+            *cur = start.clone();
+            vec![od("Close", vec![])]
+        }
         "i" => vec![od("Flatness", vec![n(0)])],
         "j" => vec![od("LineJoin", vec![a[0].clone()])],
         "J" => vec![od("LineCap", vec![a[0].clone()])],
@@ -460,9 +478,16 @@ fn expand(op: &str, a: &[Val], cur: &mut Option<(Val, Val)>, compat: &mut bool) 
         "n" => vec![od("EndPath", vec![])],
         "q" => vec![od("Save", vec![])],
         "Q" => vec![od("Restore", vec![])],
-        "re" => vec![od("Rect", (0..4).map(n).collect())],
+        "re" => {
+            *start = Some((n(0), n(1)));
+            *cur = start.clone();
+            vec![od("Rect", (0..4).map(n).collect())]
+        }
         "ri" => vec![od("RenderingIntent", vec![a[0].clone()])],
-        "s" => vec![od("Close", vec![]), od("Stroke", vec![])],
+        "s" => {
+            *cur = start.clone();
+            vec![od("Close", vec![]), od("Stroke", vec![])]
+        }
         "S" => vec![od("Stroke", vec![])],
         "sh" => vec![od("Shade", vec![a[0].clone()])],
         "T*" => vec![od("TextNewline", vec![])],
@@ -506,6 +531,7 @@ pub fn render_table(c: &TableCase, disabled: &[String]) -> TableRendered {
     let mut p = Printer::new(&mut t);
     let mut want = Vec::new();
     let mut cur: Option<(Val, Val)> = None;
+    let mut start: Option<(Val, Val)> = None;
     let mut compat = false;
     let mut operators = Vec::new();
     let mut first = true;
@@ -551,7 +577,7 @@ pub fn render_table(c: &TableCase, disabled: &[String]) -> TableRendered {
             p.raw(b"ID ");
             p.raw(&data);
             p.raw(b"\nEI");
-            want.extend(expand(op, args, &mut cur, &mut compat));
+            want.extend(expand(op, args, &mut cur, &mut start, &mut compat));
             continue;
         }
         for a in args {
@@ -560,7 +586,7 @@ pub fn render_table(c: &TableCase, disabled: &[String]) -> TableRendered {
             p.sep(next_is_delim);
         }
         p.raw(op.as_bytes());
-        want.extend(expand(op, args, &mut cur, &mut compat));
+        want.extend(expand(op, args, &mut cur, &mut start, &mut compat));
     }
     // the text ends with white-space as content streams do
     p.raw(b"\n");
@@ -571,6 +597,14 @@ pub fn render_table(c: &TableCase, disabled: &[String]) -> TableRendered {
 
 pub fn table_strategy(max_ops: usize) -> impl Strategy<Value = TableCase> {
     (proptest::collection::vec((0usize..OPERATORS.len()).prop_flat_map(|i| operands(i).prop_map(move |a| (i, a))), 1..=max_ops), gen::tape(120)).prop_map(|(ops, tape)| TableCase { ops, tape })
+}
+
+/// Path construction and painting operators only, so that the current point is exercised across m l c v y h re and the
+/// closing painters (v after h / re / s / b takes the start of the closed subpath, 8.5.2.1).
+pub fn path_strategy(max_ops: usize) -> impl Strategy<Value = TableCase> {
+    const PATH: [&str; 16] = ["m", "l", "c", "v", "v", "v", "y", "h", "h", "re", "re", "s", "b", "b*", "S", "n"];
+    let idx: Vec<usize> = PATH.iter().map(|o| OPERATORS.iter().position(|p| p == o).unwrap()).collect();
+    (proptest::collection::vec(proptest::sample::select(idx).prop_flat_map(|i| operands(i).prop_map(move |a| (i, a))), 2..=max_ops), gen::tape(120)).prop_map(|(ops, tape)| TableCase { ops, tape })
 }
 
 pub fn run_table(c: &TableCase, info: &mut CaseInfo) -> Result<(), Failure> {
@@ -619,6 +653,8 @@ pub fn run(ctx: &Ctx) {
     );
     let scases = ctx.tier.pick(10_000, 600_000);
     ctx.run_cases("operator-table-sequences", scases, || table_strategy(6), |c, info| run_table(c, info));
+    let pcases = ctx.tier.pick(10_000, 400_000);
+    ctx.run_cases("path-current-point", pcases, || path_strategy(8), |c, info| run_table(c, info));
     // unknown operators are ignored inside BX ... EX and operands do not leak out
     ctx.run_one("compatibility-section", "BX-EX", |info| {
         info.nontrivial(true);
@@ -627,4 +663,4 @@ pub fn run(ctx: &Ctx) {
     });
 }
 
-pub const RULE: &str = "cases = (a) sequences of operations over every Op variant except InlineImage (which the serializer rejects) with finite f32 operands, Unicode names and arbitrary byte strings, biased towards the adjacency patterns behind the writer's shorthands (s b b* ' \" TD v y); (b) each of the 73 operators of ISO 32000-1 Table A.1 with generated well-formed operands spelled by the randomised printer, alone and in sequences of 1-6; oracle = (a) parse_ops(serialize_ops(ops)) equals ops under an independent structural description, (b) the parsed operations equal the table's expansion with operands in order, sequences giving the concatenation (no operand leaks), v using the tracked current point; non-trivial (a) = a shorthand fired in the written text, (b) = at least one operator; distinct by text";
+pub const RULE: &str = "cases = (a) sequences of operations over every Op variant except InlineImage (which the serializer rejects) with finite f32 operands, Unicode names and arbitrary byte strings, biased towards the adjacency patterns behind the writer's shorthands (s b b* ' \" TD v y); (b) each of the 73 operators of ISO 32000-1 Table A.1 with generated well-formed operands spelled by the randomised printer, alone and in sequences of 1-6; oracle = (a) parse_ops(serialize_ops(ops)) equals ops under an independent structural description, (b) the parsed operations equal the table's expansion with operands in order, sequences giving the concatenation (no operand leaks), v using the tracked current point (which h, s, b, b* return to the start of the subpath and re sets to the rectangle's origin; extra section of path operators only); non-trivial (a) = a shorthand fired in the written text, (b) = at least one operator; distinct by text";
